@@ -14,6 +14,197 @@ use crate::pkt::{obs, sweep};
 
 pub struct C01;
 
+/// `epmc miri-cases C01 <stride>`: prints the reduced-bound case list (natively; enumeration is too slow when interpreted)
+pub fn miri_cases(stride: usize) -> i32 {
+    let r = inproc("C01", |ctx| {
+        sweep::run_reduced(ctx, true, stride, (0, 1), &|_door, _bytes, _shape, _case| {});
+    });
+    eprintln!("{} cases listed", r.cases);
+    0
+}
+
+/// `epmc miri C01 <case file> <shard> <nshards>`: executes the listed cases of one shard with exact-size heap buffers
+/// instead of the mmap arena; meant to be executed by Miri (which then is the monitor: out-of-bounds, uninitialised
+/// reads, provenance, alignment, invalid values).
+pub fn miri_main(file: &str, shard: (u64, u64)) -> i32 {
+    use crate::pkt::gen::Door;
+    let text = std::fs::read_to_string(file).unwrap_or_default();
+    let mut todo: Vec<(u64, Door, Vec<u8>)> = vec![];
+    for l in text.lines() {
+        // MIRI-CASE <n> door=<door> bytes=<hex> (...)
+        let mut it = l.split(' ');
+        if it.next() != Some("MIRI-CASE") {
+            continue;
+        }
+        let n: u64 = it.next().and_then(|x| x.parse().ok()).unwrap_or(0);
+        if n % shard.1 != shard.0 {
+            continue;
+        }
+        let door = it.next().and_then(|x| x.strip_prefix("door=")).and_then(Door::parse);
+        let bytes = it.next().and_then(|x| x.strip_prefix("bytes=")).map(unhex);
+        if let (Some(d), Some(b)) = (door, bytes) {
+            todo.push((n, d, b));
+        }
+    }
+    let r = inproc("C01", |ctx| {
+        for (n, door, bytes) in &todo {
+            println!("MIRI-EXEC {}", n);
+            ctx.case(
+                None,
+                || CaseDesc { shape: door.name(), text: format!("door={} bytes={}", door.name(), hex(bytes)), rank: bytes.len() as u64 },
+                |case| {
+                    // exact-size allocation: every case gets its own heap object
+                    let buf: Vec<u8> = bytes.to_vec();
+                    let b: &[u8] = &buf[..];
+                    let mut s = obs::Sink::new(b, false);
+                    s.full = false;
+                    obs::run_door(*door, b, &mut s, case);
+                    obs::checksum_touch(b, &mut s, case);
+                    case.evals(s.evals);
+                    for (sig, d) in s.bad.drain(..) {
+                        if sig.starts_with("slice-outside-input") {
+                            case.fail(sig, d);
+                        }
+                    }
+                },
+            );
+        }
+    });
+    for (sig, detail, text) in &r.violations {
+        println!("MIRI-VIOLATION\t{}\t{}\t{}", sig, detail, text);
+    }
+    println!("MIRI-DONE cases={} evals={} violations={}", r.cases, r.evals, r.violations.len());
+    if r.violations.is_empty() {
+        0
+    } else {
+        1
+    }
+}
+
+fn run_miri_stage(id: &str, stride: usize) -> PostRun {
+    use std::process::{Command, Stdio};
+    let mut p = PostRun::default();
+    let exe = std::env::current_exe().unwrap_or_default();
+    let src = std::env::var("EPMC_SRC_DIR").unwrap_or_else(|_| format!("{}/epmc", verif_dir()));
+    let tdir = exe.parent().and_then(|d| d.parent()).map(|d| d.to_path_buf()).unwrap_or_else(|| "/verif/target".into());
+    let target = tdir.join("miri");
+    let t0 = std::time::Instant::now();
+    // 1. case list, natively
+    let list = Command::new(&exe).args(["miri-cases", id, &stride.to_string()]).output();
+    let list = match list {
+        Ok(o) if o.status.success() => String::from_utf8_lossy(&o.stdout).to_string(),
+        _ => {
+            p.machinery_errors.push("Miri stage: could not produce the case list".into());
+            return p;
+        }
+    };
+    let ncases = list.lines().filter(|l| l.starts_with("MIRI-CASE")).count();
+    let file = tdir.join(format!("miri-cases-{}.txt", id));
+    if std::fs::write(&file, &list).is_err() {
+        p.machinery_errors.push("Miri stage: could not write the case list".into());
+        return p;
+    }
+    // 2. build once (so that the shards do not queue on the build lock), then one interpreter per core
+    let mk = |shard: Option<(usize, usize)>| {
+        let mut c = Command::new("cargo");
+        c.args(["+nightly", "miri", "run", "--offline", "--quiet", "--", "miri", id, file.to_str().unwrap_or("")]);
+        match shard {
+            Some((s, n)) => {
+                c.arg(s.to_string()).arg(n.to_string());
+            }
+            None => {
+                // shard 1 of usize::MAX: executes nothing, only builds
+                c.arg("1").arg("18446744073709551615");
+            }
+        }
+        c.current_dir(&src).env("CARGO_TARGET_DIR", &target).env("MIRIFLAGS", "-Zmiri-disable-isolation").env("RUSTFLAGS", "--cfg etherparse_verif");
+        c.stdin(Stdio::null()).stdout(Stdio::piped()).stderr(Stdio::piped());
+        c
+    };
+    match mk(None).output() {
+        Err(e) => {
+            p.assumptions.push(format!("Miri stage could not be started ({}); the claim rests on guard zones, std precondition checks and placement independence only", e));
+            p.coverage.push(("miri_stage".into(), "unavailable".into()));
+            return p;
+        }
+        Ok(o) => {
+            if !String::from_utf8_lossy(&o.stdout).contains("MIRI-DONE") {
+                let se = String::from_utf8_lossy(&o.stderr).to_string();
+                p.assumptions.push(format!("Miri stage unavailable in this environment ({}); the claim rests on guard zones, std precondition checks and placement independence only", truncate(&se.lines().rev().take(4).collect::<Vec<_>>().join(" | "), 400)));
+                p.coverage.push(("miri_stage".into(), "unavailable".into()));
+                return p;
+            }
+        }
+    }
+    let n = std::thread::available_parallelism().map(|n| n.get()).unwrap_or(4);
+    // one pre-filtered case file per shard: parsing the complete list is slow when interpreted
+    let mut kids = vec![];
+    for sh in 0..n {
+        let part: String = list
+            .lines()
+            .filter(|l| l.starts_with("MIRI-CASE"))
+            .filter(|l| l.split(' ').nth(1).and_then(|x| x.parse::<usize>().ok()).map(|k| k % n == sh).unwrap_or(false))
+            .map(|l| format!("{}\n", l))
+            .collect();
+        let f = tdir.join(format!("miri-cases-{}-{}.txt", id, sh));
+        if std::fs::write(&f, part).is_err() {
+            continue;
+        }
+        let mut c = Command::new("cargo");
+        c.args(["+nightly", "miri", "run", "--offline", "--quiet", "--", "miri", id, f.to_str().unwrap_or(""), "0", "1"]);
+        c.current_dir(&src).env("CARGO_TARGET_DIR", &target).env("MIRIFLAGS", "-Zmiri-disable-isolation").env("RUSTFLAGS", "--cfg etherparse_verif");
+        c.stdin(Stdio::null()).stdout(Stdio::piped()).stderr(Stdio::piped());
+        if let Ok(k) = c.spawn() {
+            kids.push(k);
+        }
+    }
+    let mut executed = 0usize;
+    let mut completed = 0usize;
+    for k in kids {
+        let o = match k.wait_with_output() {
+            Ok(o) => o,
+            Err(_) => continue,
+        };
+        let so = String::from_utf8_lossy(&o.stdout).to_string();
+        let se = String::from_utf8_lossy(&o.stderr).to_string();
+        let last: u64 = so.lines().filter(|l| l.starts_with("MIRI-EXEC")).last().and_then(|l| l[10..].trim().parse().ok()).unwrap_or(0);
+        executed += so.lines().filter(|l| l.starts_with("MIRI-EXEC")).count();
+        for l in so.lines().filter(|l| l.starts_with("MIRI-VIOLATION")) {
+            let f: Vec<&str> = l.split('\t').collect();
+            if f.len() >= 4 {
+                p.violations.push((format!("miri-stage:{}", f[1]), f[2].to_string(), f[3].to_string()));
+            }
+        }
+        if so.contains("MIRI-DONE") {
+            completed += 1;
+        } else if se.contains("Undefined Behavior") {
+            let msg: String = se.lines().skip_while(|l| !l.contains("Undefined Behavior")).take(16).collect::<Vec<_>>().join(" | ");
+            let kind: String = msg.split("Undefined Behavior:").nth(1).unwrap_or("?").split('|').next().unwrap_or("?").trim().chars().filter(|c| !c.is_ascii_digit()).collect();
+            let input = list.lines().find(|l| l.starts_with(&format!("MIRI-CASE {} ", last))).unwrap_or("").to_string();
+            p.violations.push((
+                format!("miri:undefined-behavior:{}", truncate(&kind, 80)),
+                format!("Miri stopped this shard at its first undefined behaviour; the cases of the shard behind it were not examined. {}", truncate(&msg, 1500)),
+                input,
+            ));
+        } else {
+            p.machinery_errors.push(format!("Miri shard ended without MIRI-DONE (exit {:?}): {}", o.status.code(), truncate(&se.lines().rev().take(8).collect::<Vec<_>>().join(" | "), 800)));
+        }
+    }
+    p.coverage.push((
+        "miri_stage".into(),
+        format!(
+            "{} of {} cases of the reduced enumeration (37 stackings x {{0,1}} deviation x boundary cuts and every 4th byte of the innermost layer, every {}. deviating packet) executed under `cargo +nightly miri run` in {} shards, {} shards ran to completion, {:.0} s",
+            executed,
+            ncases,
+            stride,
+            n,
+            completed,
+            t0.elapsed().as_secs_f64()
+        ),
+    ));
+    p
+}
+
 thread_local! {
     static ARENA: Arena = Arena::new(40);
 }
@@ -49,6 +240,12 @@ impl Check for C01 {
     }
     fn expect_reach(&self, _tier: Tier) -> Vec<String> {
         vec!["ok:SlicedPacket::from_ethernet".into(), "ok:LaxSlicedPacket::from_ethernet".into(), "ok:Ipv6ExtensionsSlice::from_slice".into(), "err:LinuxSllHeader::read".into(), "ok:LinuxSllHeader::read".into()]
+    }
+    fn post_run(&self, tier: Tier) -> Option<PostRun> {
+        if !tier.is_thorough() || std::env::var("EPMC_NO_MIRI").is_ok() {
+            return None;
+        }
+        Some(run_miri_stage("C01", std::env::var("EPMC_MIRI_STRIDE").ok().and_then(|s| s.parse().ok()).unwrap_or(8)))
     }
     fn run_unit(&self, tier: Tier, u: u64, ctx: &mut Ctx) {
         let thorough = tier.is_thorough();
